@@ -18,7 +18,8 @@ DSN = "d1"
 
 # ------------------------------------------------------------------ concretiser (atoms -> texts)
 ATOM = {"q": "'", "d": '"', "s": ";", "k": " --", "p": ")", "o": " OR 1=1", "u": " UNION SELECT k,v FROM secrets",
-        "x": "a", "y": "b"}
+        "x": "a", "y": "b", "b": "\\", "1": "1", "z": "(SELECT count(*) FROM secrets)"}
+TRAIL = {"close": ")", "or": " OR 1=1", "orq": ") OR ((1=1'", "comma": ",", "word": " garbage"}
 TBL = {"plain": "t1", "upper": "T1", "quoted": '"t1"', "main": "main.t1",
        "list": "t1,secrets", "cmt": "t1 --", "union": "t1 WHERE 1=0 UNION SELECT k,v FROM secrets --",
        "stack": "t1;DROP TABLE secrets"}
@@ -41,14 +42,15 @@ def text(atoms):
 
 
 def lit(leaf, qs):
+    sg = leaf.get("sg", "")
     if leaf["col"] == "id":
-        return str(leaf["iv"])
+        return sg + str(leaf["iv"])
     s = text(leaf["sv"])
     if qs == "bt" and "`" not in s:
-        return "`" + s + "`"
+        return sg + "`" + s + "`"
     if qs == "sq":
-        return "'" + s + "'"
-    return '"' + s.replace("\\", "\\\\").replace('"', '\\"') + '"'
+        return sg + "'" + s + "'"      # as a client would type it: the docs define no escapes inside single quotes
+    return sg + '"' + s.replace("\\", "\\\\").replace('"', '\\"') + '"'
 
 
 def leaf_text(leaf, qs):
@@ -68,6 +70,8 @@ def concretise(req):
     """abstract request (a record of SqlFilter_Gen) -> (method, path, body)"""
     op = req["op"]
     flts = [filter_text(f, req["qs"]) for f in req["flt"]]
+    if flts and req.get("trail", "-") != "-":
+        flts[-1] += TRAIL[req["trail"]]
     tbl = TBL[req["tbl"]]
     payload = None
     if req["setv"] or op in ("update", "insert", "txupdate", "txinsert"):
@@ -113,7 +117,7 @@ def concretise(req):
 
 def base_req(op):
     return {"op": op, "tbl": "plain", "flt": [], "join": "array" if op in TXOPS else "comma", "qs": "dq", "cols": [],
-            "sort": "-", "limit": "-", "start": "-",
+            "sort": "-", "limit": "-", "start": "-", "trail": "-",
             "setv": ["y"] if op in ("update", "insert", "txupdate", "txinsert") else [], "key": "name"}
 
 
@@ -123,8 +127,8 @@ def cand_requests(cands, ops=("read", "delete", "txupdate")):
     for c in cands:
         for op in ops:
             r = base_req(op)
-            r["flt"] = [{"k": "leaf", "l": {"op": "EQ", "col": "name", "iv": 0, "sv": v},
-                         "r": {"op": "EQ", "col": "name", "iv": 0, "sv": v}} for v in c["vals"]]
+            r["flt"] = [{"k": "leaf", "l": {"op": "EQ", "col": "name", "iv": 0, "sv": v, "sg": ""},
+                         "r": {"op": "EQ", "col": "name", "iv": 0, "sv": v, "sg": ""}} for v in c["vals"]]
             r["pred"] = c["kind"]
             out.append(r)
     return out
@@ -493,14 +497,14 @@ def run():
         jobs = {
             "ego": lambda: build_ego(sd),
             "mc": lambda: vf.tlc(SPEC, "SqlLit", "SqlLit_MC.cfg" if thorough else "SqlLit_MCq.cfg", sd, workers=litw, timeout=1500),
-            "asis": lambda: vf.tlc(SPEC, "SqlLit", "SqlLit_MC_asis.cfg", sd, workers=2, timeout=600),
+            "asis": lambda: vf.tlc(SPEC, "SqlLit", "SqlLit_MC_asis.cfg", sd, workers=2, timeout=1500),
             "gen": lambda: vf.tlc(SPEC, "SqlFilter_Gen", "SqlFilter_Gen.cfg" if thorough else "SqlFilter_Genq.cfg", sd, workers=1,
                                   seed=vf.SEED, timeout=1500),
             "cand": lambda: vf.tlc(SPEC, "SqlLit_Gen", "SqlLit_Gen.cfg" if thorough else "SqlLit_Genq.cfg", sd, workers=1,
                                    seed=vf.SEED, timeout=1500),
         }
         if thorough:
-            jobs["asisv"] = lambda: vf.tlc(SPEC, "SqlLit", "SqlLit_MC_asis_value.cfg", sd, workers=2, timeout=600)
+            jobs["asisv"] = lambda: vf.tlc(SPEC, "SqlLit", "SqlLit_MC_asis_value.cfg", sd, workers=2, timeout=1500)
         R = par(jobs)
         # 1. the repair design keeps literal boundaries and values (exhaustive at the bound)
         chk.add_tlc(vf.tlc_ok(R["mc"], "SqlLit MC"), "SqlLit MC, quote-doubling design: StructKept, ValuesKept")
@@ -575,7 +579,7 @@ def run():
 
 SELFTEST = [
     ("rows", lambda x: x["out"]["status"] == 200 and x["req"]["op"] in ("read", "aread", "txrows") and len(x["out"]["rows"]) >= 2
-        and x["req"]["limit"] == "-" and x["req"]["start"] == "-",
+        and x["req"]["limit"] == "-" and x["req"]["start"] == "-" and x["req"]["trail"] == "-",
      lambda r: r["out"].__setitem__("rows", r["out"]["rows"][1:])),
     ("touch", lambda x: x["out"]["status"] == 200 and x["req"]["op"] in ("read", "aread", "txrows") and x["out"]["touched"] == ["t1"],
      lambda r: r["out"].__setitem__("touched", ["secrets", "t1"])),
